@@ -159,6 +159,12 @@ func TestVerifC18History(t *testing.T) {
 		dir := vf18TempDir("vf18-hist-*")
 		defer os.RemoveAll(dir)
 
+		// every object handed out during the history stays alive and is re-verified
+		// after every further call
+		reg := &vf18Registry{}
+		vf18Keep = reg
+		defer func() { vf18Keep = nil }()
+
 		state := vf18None
 		var P vf18Ident
 		var hist []string
@@ -175,6 +181,11 @@ func TestVerifC18History(t *testing.T) {
 				act = vf18Action{Kind: "plain", Args: vf18Args{}, IATGiven: -1} // closing plain start
 			} else {
 				act = vf18DrawAction(rt)
+			}
+			if i > 0 {
+				if msg := reg.verify(hist[len(hist)-1]); msg != "" {
+					fail("%s", msg)
+				}
 			}
 			hist = append(hist, act.Args.String())
 			sf, err, pan := vf18Start(dir, act.Args)
@@ -273,8 +284,15 @@ func TestVerifC18History(t *testing.T) {
 			}
 			P, state = got, vf18Known
 		}
+		if msg := reg.verify(hist[len(hist)-1]); msg != "" {
+			fail("%s", msg)
+		}
+		vf18Keep = nil
 		detrand.Real()
 		cls := []string{"history"}
+		if reg.reverified > 0 {
+			cls = append(cls, "history-earlier-parse-result-reverified-after-a-different-cert")
+		}
 		if failedOnKnown {
 			cls = append(cls, "history-failed-start-on-known-identity")
 		}
